@@ -31,6 +31,7 @@ OwnersOK(pre, c, r, post, own) == r.o # "ok" \/
    LET ex == Expected(pre, c, own).st.fs IN
    \A p \in DOMAIN ex \cap DOMAIN post.fs : /\ (ex[p].uid = AnyId \/ ex[p].uid = post.fs[p].uid)
                                              /\ (ex[p].gid = AnyId \/ ex[p].gid = post.fs[p].gid)
+MultiEntryOps == {"copy", "copy_b", "remove_all", "chmod", "chmod_b", "chown", "chown_b"}
 Blame(okM, okS) == IF okM /\ okS THEN "reference-leaves-it-open" ELSE IF okM THEN "std-deviates" ELSE IF okS THEN "mem-deviates" ELSE "both-deviate"
 
 JudgePair(preM, preS, s, own) ==
@@ -54,6 +55,9 @@ JudgePair(preM, preS, s, own) ==
                 ELSE LET jm == JudgeStepO(preM, [c |-> c, r |-> s.mem.r, same |-> s.mem.same, post |-> s.mem.post], MemOwn)
                          js == JudgeStepO(preS, [c |-> c, r |-> s.std.r, same |-> s.std.same, post |-> s.std.post], own)
                      IN IF RefOnly /\ jm[1][1] # "BAD" /\ js[1][1] # "BAD" THEN << <<"unsettled", "pair", c.op, "both backends within the reference, different from each other">> >>
+                        \* a multi-entry call that FAILS on both backends stops wherever it met the obstacle: how far it got is not comparable
+                        ELSE IF ~IsOk(s.mem.r) /\ ~IsOk(s.std.r) /\ s.mem.r.o # "panic" /\ s.std.r.o # "panic" /\ c.op \in MultiEntryOps /\ jm[1][1] # "BAD" /\ js[1][1] # "BAD"
+                             THEN << <<"unsettled", "pair", c.op, "partial result of a multi-entry call that fails on both backends">> >>
                         ELSE
                         << <<"BAD", "pair", c.op, ArgClass(preS, ResolveA(preS, c)), IF c.op \in TwoPath THEN ArgClass(preS, ResolveB(preS, c)) ELSE "-",
                               IF c.op \in TwoPath THEN RelClass(preS, c) ELSE "-", "mem:" \o s.mem.r.o, "std:" \o s.std.r.o,
